@@ -8,6 +8,10 @@ CHECKS = {
  "C05": ("exploration", "Reference-model monitor around every Merge/SubMerge/Truncate call: exhaustive over a 6-period window for Sequence.Merge and Sequence.Truncate, randomised for expression trees, SubMergers, SubMerge incl. SHIFT; operands byte-compared before/after.", "Trusts the monitor's own period->updates model; values are dyadic so sums are exact.", "runtime reference-model monitor + operand snapshot comparison (exhaustive bounded window + random)", "§3 C05"),
  "C06": ("exploration", "Bucket oracle from raw points (T_j = until - j*P) + disjointness + _points conservation over generated coarse groupings (dim subsets, period multiples, beyond-window, non-multiples must error).", "Virtual clock = newest accepted timestamp; don't-care for empty aggregates and x/0.", "runtime reference-model monitor", "§3 C06"),
  "C07": ("exploration", "Differential against the unbounded query with must-include/must-exclude/straddler-free partition at native resolution, bucket oracle with period(P), default window vs (now-retention, now] incl. retention not a multiple of resolution.", "Virtual clock; straddlers free; asOf before table asOf may be refused.", "runtime differential + reference-model monitor", "§3 C07"),
+
+ "C08": ("exploration", "Differentials: query WHERE p vs sibling table defined WHERE p; WHERE vs reference aggregator over matching points; HAVING vs filtered HAVING-free rows (no _having column, near-equal constants); IN (subquery) vs literal list (also two subqueries); FROM (subquery) vs re-aggregation of materialised rows.", "Query-time WHERE only sees key dims (tables group by all generated dims); strict operators only between two HAVING fields.", "runtime differential monitors + reference-model monitor", "§3 C08"),
+ "C09": ("exploration", "On every ORDER BY / LIMIT / OFFSET result: multiset equality with the unordered query, sortedness under the monitor's comparator (ties free), LIMIT/OFFSET window by key tuple; hostile mixed-type dims need totality only.", "Missing dims sort first; order between different dynamic types unspecified.", "runtime monitor with own comparator over generated queries", "§3 C09"),
+ "C16": ("exploration", "SQL: generated+mutated strings through sql.Parse, sql.TableFor, DB.Query (plan) under recover with a 30s hang detector; inserts: hostile payloads via Insert/InsertRaw interleaved with valid unique-id points, all valid ids must be present exactly once afterwards, stalled ingestion detected by progress counters.", "Executing a plan is not judged; a stall = no progress at all for 10s while behind.", "runtime fuzzing monitor (panic/hang capture) + exactly-once history check", "§3 C16"),
 }
 m = {
  "version": 1,
